@@ -137,6 +137,21 @@ example : context.wf ⟨⟨255, 0, 0, 8, []⟩, leBytes 8 F64.impl.M, ⟨255, 12
 example : traceInfo.dec (traceInfo.enc ⟨254, 1, 0, 8, [7]⟩ ++ [9]) = .ok (⟨254, 1, 0, 8, [7]⟩, [9]) := by decide
 
 -- ------------------------------------------------------------------------------------------------
+-- whichever byte source: the theorems above are about the `SliceReader` semantics (a decoder sees the unread
+-- bytes). `std::io::Cursor` implements the required methods of `ByteReader` so that each of them is the
+-- `SliceReader` method on its unread bytes; the provided methods and every `read_from` are the same code for
+-- every source, so they agree on all inputs. (`ReadAdapter` is covered by the refinement theorem of C13; the
+-- harness runs every case through all three sources.)
+
+theorem cursor_read_u8 (c : Cursor) : (c.readU8).unread = readU8 c.rem := cursor_readU8_eq c
+theorem cursor_peek_u8 (c : Cursor) : (c.peekU8).unread = peekU8 c.rem := cursor_peekU8_eq c
+theorem cursor_read_slice (n : Nat) (c : Cursor) : (c.readSlice n).unread = readSlice n c.rem :=
+  cursor_readSlice_eq n c
+theorem cursor_has_more_bytes (c : Cursor) : c.hasMoreBytes = !c.rem.isEmpty := cursor_hasMore_eq c
+
+example : (Cursor.readSlice 2 ⟨[1, 2, 3], 1⟩).unread = .ok ([2, 3], []) := by decide
+
+-- ------------------------------------------------------------------------------------------------
 -- constructors and the types' own parse steps
 
 /-- `Queries::new` then `Queries::parse` (`Table::from_bytes`, `BatchMerkleProof::deserialize`) with up to
